@@ -71,12 +71,10 @@ impl Backoff {
     }
 
     pub fn increment(&mut self) {
-        // Increment backoff by random value within configured range until it reached maximum.
-        if self.value > self.config.max_value {
-            self.value = self.config.max_value;
-        } else if self.value < self.config.max_value {
+        // Increment backoff by random value within configured range, never exceeding the maximum.
+        if self.value < self.config.max_value {
             let increment = self.random_increment();
-            self.value += increment;
+            self.value = (self.value + increment).min(self.config.max_value);
         }
 
         // Reset backoff after we've waited long enough.
